@@ -6,6 +6,7 @@ transition of the abstract state graph, plus deep random ones) are replayed on t
 after every step; traces recorded from the real code under a seeded random driver are validated by TLC.
 """
 import copy
+import json
 import random
 import time as _time
 
@@ -34,17 +35,22 @@ def prep(behs):
   return behs
 
 
-def mc_job(cfg, module, workers=4):
-  return dict(spec_dir=SPEC, module=module, cfg=cfg, tag="X04", timeout=2400, workers=workers)
+# short TLC runs (a few seconds) spend most of their CPU in JIT compilation and GC threads: keep them light
+JVM_SHORT = {"JAVA_TOOL_OPTIONS": "-XX:ParallelGCThreads=2 -XX:TieredStopAtLevel=1"}
+
+
+def mc_job(cfg, module, workers=4, short=False):
+  return dict(spec_dir=SPEC, module=module, cfg=cfg, tag="X04", timeout=2400, workers=workers,
+              env=JVM_SHORT if short else None)
 
 
 def ex_job(cfg, module):
-  return dict(spec_dir=SPEC, module=module, cfg=cfg, workers=1, coverage=False, tag="X04", timeout=2400)
+  return dict(spec_dir=SPEC, module=module, cfg=cfg, workers=1, coverage=False, tag="X04", timeout=2400, env=JVM_SHORT)
 
 
 def sim_job(ctx, cfg, module, num, depth, off):
   return dict(spec_dir=SPEC, module=module, cfg=cfg, workers=1, coverage=False, simulate=dict(num=num),
-              depth=depth + 1, seed=ctx.seed + 31 + off, tag="X04", timeout=2400)
+              depth=depth + 1, seed=ctx.seed + 31 + off, tag="X04", timeout=2400, env=JVM_SHORT)
 
 
 def negative_control(ctx, adapter, beh, params, corrupt):
@@ -77,12 +83,21 @@ def corrupt_k(b):
   return False
 
 
-def replay_set(ctx, name, adapter, behs, params, cap, chunk=200):
-  nall = len(behs)
+def take(ctx, r, tag, cap):
+  """behaviours printed by TLC under `tag`; sampled BEFORE decoding and the raw output dropped afterwards (an
+  export of 10^5 behaviours is hundreds of MB as text and several GB as Python objects - and the replay forks)"""
+  raw = r.tagged_raw(tag)
+  nall = len(raw)
+  if cap and nall > cap:
+    raw = random.Random(ctx.seed * 7919 + nall).sample(raw, cap)
+  behs = prep([json.loads(json.loads(x)) for x in raw])
+  r.stdout, r.prints = "", []
+  return nall, behs
+
+
+def replay_set(ctx, name, adapter, nall, behs, params, chunk=200):
   if not behs:
     raise tlc.TLCError("no behaviours exported by " + name)
-  if cap and nall > cap:
-    behs = random.Random(ctx.seed * 7919 + nall).sample(behs, cap)
   t0 = _time.time()
   st = core.replay(ctx, adapter, behs, params=params, chunk=chunk, nontrivial=lambda b: len(b) > 1)
   ctx.notes["replay " + name] = dict(exported=nall, replayed=len(behs), params=params, wall_s=round(_time.time() - t0, 1), **st)
@@ -122,17 +137,17 @@ def run(ctx):
   exs = [("EX_T1.cfg", "MCTimers", AD_T, dict(direct="mix"), 4500, None),
          ("EX_T2e.cfg", "MCTimers", AD_T, dict(direct="mix"), 4500, None),
          ("EX_K1.cfg", "MCKeepalive", AD_K, p21, None, None),
-         ("EX_K2c.cfg", "MCKeepalive", AD_K, p11, 4500, None),
+         ("EX_K2u.cfg", "MCKeepalive", AD_K, p11, 6000, None),
          ("EX_K2d.cfg", "MCKeepalive", AD_K, dict(p11, dup=DUP), 2500, None)]
   if not quick:
-    exs = [(c, m, ad, prm, cq, 20000 if c == "EX_K2c.cfg" else None) for c, m, ad, prm, cq, _ in exs]
-    exs += [("EX_T2q.cfg", "MCTimers", AD_T, dict(direct="st"), None, 20000),
-            ("EX_T2.cfg", "MCTimers", AD_T, dict(direct="direct"), None, 20000),
-            ("EX_K2q.cfg", "MCKeepalive", AD_K, p21, None, 20000),
-            ("EX_K2.cfg", "MCKeepalive", AD_K, p21, None, 20000),
+    exs += [("EX_K2c.cfg", "MCKeepalive", AD_K, p11, None, 15000),
+            ("EX_T2q.cfg", "MCTimers", AD_T, dict(direct="st"), None, 15000),
+            ("EX_T2.cfg", "MCTimers", AD_T, dict(direct="direct"), None, 15000),
+            ("EX_K2q.cfg", "MCKeepalive", AD_K, p21, None, 15000),
+            ("EX_K2.cfg", "MCKeepalive", AD_K, p21, None, 15000),
             ("EX_K2dx.cfg", "MCKeepalive", AD_K, dict(p11, dup=DUP), None, 15000),
-            ("EX_K3u.cfg", "MCKeepalive", AD_K, p11, None, 25000)]
-  n = 250 if quick else 1500
+            ("EX_K3u.cfg", "MCKeepalive", AD_K, p11, None, 20000)]
+  n = 250 if quick else 1200
   sims = [("SIM_T.cfg", "MCTimers", AD_T, dict(direct="mix"), n, 40, 0),
           ("SIM_K.cfg", "MCKeepalive", AD_K, dict(p21, dup=DUP), n, 45, 1),
           ("SIM_Kb.cfg", "MCKeepalive", AD_K, dict(p12, dup=DUP), n, 45, 2)]
@@ -141,12 +156,15 @@ def run(ctx):
   # exports first (single-threaded, longest), then simulations, then the model runs: the replays below start as
   # soon as their export is there, while the model runs still use the other cores
   import concurrent.futures
-  pool = concurrent.futures.ThreadPoolExecutor(13 if quick else 7)
+  pool = concurrent.futures.ThreadPoolExecutor(13 if quick else 6)
   t0 = _time.time()
   sub = lambda job: pool.submit(lambda j=job: tlc.run(j.pop("spec_dir"), j.pop("module"), j.pop("cfg"), **j))   # noqa
-  f_ex = [sub(ex_job(c, m)) for c, m, _, _, _, _ in exs]
-  f_sim = [sub(sim_job(ctx, c, m, num, d, off)) for c, m, _, _, num, d, off in sims]
-  f_mc = [sub(mc_job(c, m, workers=4 if quick else 6)) for c, m, _ in mcs]
+  # (exports are sampled/decoded and their raw text dropped in the worker thread, as soon as TLC is done)
+  subx = lambda job, tag, cap: pool.submit(                                                                      # noqa
+      lambda j=job: take(ctx, tlc.run(j.pop("spec_dir"), j.pop("module"), j.pop("cfg"), **j), tag, cap))
+  f_ex = [subx(ex_job(c, m), "T", capq if quick else capt) for c, m, _, _, capq, capt in exs]
+  f_sim = [subx(sim_job(ctx, c, m, num, d, off), "H", None) for c, m, _, _, num, d, off in sims]
+  f_mc = [sub(mc_job(c, m, workers=4 if quick else 6, short=quick)) for c, m, _ in mcs]
   try:
     _stages(ctx, quick, mcs, exs, sims, f_mc, f_ex, f_sim, pool, t0)
   finally:
@@ -157,9 +175,8 @@ def _stages(ctx, quick, mcs, exs, sims, f_mc, f_ex, f_sim, pool, t0):
   # ---- 2. spec -> code: every transition of the abstract state graphs (sampled where capped)
   done_nc = set()
   for (c, m, ad, prm, capq, capt), f in zip(exs, f_ex):
-    r = f.result()
-    behs = prep(r.tagged("T"))
-    behs = replay_set(ctx, c, ad, behs, prm, capq if quick else capt)
+    nall, behs = f.result()
+    behs = replay_set(ctx, c, ad, nall, behs, prm)
     if ad not in done_nc:
       cor = corrupt_t if ad == AD_T else corrupt_k
       oks = [behs[i] for i in core.replay.last_ok]
@@ -172,17 +189,16 @@ def _stages(ctx, quick, mcs, exs, sims, f_mc, f_ex, f_sim, pool, t0):
 
   # ---- 3. deep random behaviours
   for (c, m, ad, prm, num, d, off), f in zip(sims, f_sim):
-    r = f.result()
-    behs = prep(r.tagged("H"))
+    nall, behs = f.result()
     if len(behs) < num // 2:
       raise tlc.TLCError("simulation %s exported only %d behaviours" % (c, len(behs)))
-    replay_set(ctx, "%s seed+%d" % (c, off), ad, behs, prm, None, chunk=20)
+    replay_set(ctx, "%s seed+%d" % (c, off), ad, nall, behs, prm, chunk=20)
 
   # ---- 4. code -> spec: random drivers on the real code, traces validated by TLC
-  ntr = 120 if quick else 1500
+  ntr = 120 if quick else 1200
   sets = [("timers", "props.X04:drive_t", "TraceTimers", "TraceT.cfg", None),
           ("keepalive", "props.X04:drive_k", "TraceKeepalive", "TraceK.cfg", (2, 1)),
-          ("keepalive", "props.X04:drive_k", "TraceKeepalive", "TraceKb.cfg", (1, 2))]
+          ("keepalive", "props.X04:drive_k", "TraceKeepalive", "TraceKb.cfg", (1, 2))][:2 if quick else 3]
   work = []
   for name, drv, mod, cfg, ito in sets:
     items = [(ctx.seed * 100003 + i, 60, ito) for i in range(ntr)]
@@ -198,7 +214,7 @@ def _stages(ctx, quick, mcs, exs, sims, f_mc, f_ex, f_sim, pool, t0):
     else:
       raise core.Machinery("no trace with a firing timer to corrupt (%s)" % name)
     work.append((name, mod, cfg, items, traces, bad))
-  futs = [pool.submit(tracecheck.validate, SPEC, mod, cfg, traces + [bad], tag="X04")
+  futs = [pool.submit(tracecheck.validate, SPEC, mod, cfg, traces + [bad], tag="X04", extra_env=JVM_SHORT)
           for name, mod, cfg, items, traces, bad in work]
   outs = [f.result() for f in futs]
   for (name, mod, cfg, items, traces, bad), (r, rej) in zip(work, outs):
